@@ -362,7 +362,52 @@ def plan_C04(tier, rng):
     return cs, models, {"input_families": cs.tags, "configurations": cfgs}
 
 
-PLANS = {"C01": plan_C01, "C02": plan_C02, "C03": plan_C03, "C04": plan_C04}
+# ================================================================================================
+# C05
+
+MIXED = [(4, 2), (8, 2), (16, 2), (32, 2), (16, 4)]
+
+
+def plan_C05(tier, rng):
+    cs = Cases()
+    quick = tier == "quick"
+    cfgs = ["radix", "crf"] if quick else ["radix", "crf", "pow2", "rf"]
+    i = 0
+    for r in range(2, 37):
+        if r == 10:
+            continue
+        rc = radix_cfgs(r, cfgs)
+        f = radix_fmt(r)
+        ec = exp_char(r)
+        for F in (F64, F32):
+            ins = gens.radix_inputs(F, r, rng, (5 if F is F64 else 3) if quick else 40, echar=chr(ec))
+            for (s, tag) in ins:
+                i += 1
+                ep = cs.new_ep()
+                o = pf(exp=ec)
+                cs.parse(ep, F["name"], f, s, rc, wo=True, opts=o, tag=tag)
+                if i % 3 == 0:
+                    cs.parse(ep, F["name"], f, s, [rc[i % len(rc)]], wo=True, opts=o, partial=True)
+    for (r, b) in MIXED:
+        for xr in (10, b, r):
+            f = fmt_id("mixed%d_%d_x%d" % (r, b, xr))
+            rc = radix_cfgs(r, cfgs)
+            for F in (F64, F32):
+                ins = gens.radix_inputs(F, r, rng, 4 if quick else 40, base=b, xr=xr, echar="^")
+                for (s, tag) in ins:
+                    i += 1
+                    ep = cs.new_ep()
+                    o = pf(exp=94)
+                    cs.parse(ep, F["name"], f, s, rc, wo=True, opts=o, tag="mixed-" + tag)
+                for s in ("1.8^3", "1^3", "0.8^1", "1.8^-3", "A^0", "a.8^1", "1^0"):
+                    ep = cs.new_ep()
+                    if xr == 10:
+                        cs.parse(ep, F["name"], f, s, rc, wo=True, opts=pf(exp=94), tag="mixed-hexfloat")
+    models = [("MC_BigNat.tla", "MC_BigNat.cfg", 4, 600), ("MC_Ieee.tla", "MC_Ieee.cfg", 4, 900)]
+    return cs, models, {"input_families": cs.tags, "configurations": cfgs}
+
+
+PLANS = {"C01": plan_C01, "C02": plan_C02, "C03": plan_C03, "C04": plan_C04, "C05": plan_C05}
 
 
 ASSUME = {
